@@ -161,10 +161,22 @@ def _make_disciplines(cfg, counter):
 
     if cfg["formulation"] == "MDF":
         return [D1(), D2(), D3()]
+    class DO(Base):
+        """A monitoring discipline: its output is an observable, evaluated by the driver at each new iteration."""
+
+        def __init__(self):
+            super().__init__("DO", ["x"], ["o"])
+
+        def compute(self, d):
+            return {"o": array([float(d["x"].sum()) + v])}
+
+        def partials(self, d):
+            return {"o": {"x": atleast_2d([1.0] * nx)}}
+
     if cfg["formulation"] == "IDF":
         # objective and constraint come from separate disciplines, each executed only when its own
         # function is evaluated: a crash can fall between the two at one point
-        return [DF(), DG()]
+        return [DF(), DG()] + ([DO()] if cfg.get("observable") else [])
     return [DSingle()]
 
 
@@ -190,6 +202,8 @@ def build(cfg, path, counter, load):
     sc = create_scenario(discs, "f", ds, formulation_name=cfg["formulation"], scenario_type=cfg["kind"], **kw)
     if cfg["constrained"]:
         sc.add_constraint("g", constraint_type="ineq")
+    if cfg.get("observable") and cfg["formulation"] == "IDF":
+        sc.add_observable("o")
     sc.set_optimization_history_backup(
         path, at_each_iteration=cfg["each_iter"], at_each_function_call=cfg["each_call"], load=load
     )
@@ -361,6 +375,7 @@ def draw_config(t):
         "mda_workers": t.randint(2, 3, "mda_workers"),
         "nx": t.randint(1, 2, "nx"), "variant": t.choice(3, "variant"),
     }
+    cfg["observable"] = formulation == "IDF" and t.flag(0.5, "observable")
     mode = t.weighted([3, 3, 1], "backup_mode")
     cfg["each_call"] = mode in (0, 2)
     cfg["each_iter"] = mode in (1, 2)
@@ -544,16 +559,28 @@ def check_restart(ctx, cfg, ref, rr, image, crash_path, all_names, sig_base, bud
                 ctx.violate("C12.restart_optimum", sig, f"restarted optimum f={res.f_opt} is worse than the best loaded feasible point f={min(feas)}; crash path {crash_path}; cfg={cfg}")
     # same history as the uninterrupted run
     if not cfg["normalize"]:
-        if not same_history(final, ref["final"], cfg):
-            if budget_stop and not cfg.get("keep_counter_on_restart") and len(final) > len(ref["final"]) and same_history(final[: len(ref["final"])], ref["final"], cfg):
+        ref_final = ref["final"]
+        if cfg.get("observable"):
+            # an observable is evaluated by the driver when a NEW point appears: a loaded point whose observable was not
+            # yet stored when the run died never gets it (reported apart, with its own signature)
+            lacking = {x for x, o in loaded if "o" not in {n for n, _ in o} and "o" in all_names.get(x, ())}
+            got_o = {x for x, o in final if "o" in {n for n, _ in o}}
+            if lacking - got_o:
+                ctx.violate(
+                    "C12.same_history", "MDO/DOE observable-not-evaluated-at-loaded-point",
+                    f"the run died after the objective of {sorted(lacking - got_o)} was stored and before its observable was: the restarted run never evaluates "
+                    f"the observable there, the uninterrupted run records it (crash path {crash_path}); cfg={cfg}", fatal=False)
+                ref_final = [(x, tuple((n, v) for n, v in o if not (n == "o" and x in lacking - got_o))) for x, o in ref_final]
+        if not same_history(final, ref_final, cfg):
+            if budget_stop and not cfg.get("keep_counter_on_restart") and len(final) > len(ref_final) and same_history(final[: len(ref_final)], ref_final, cfg):
                 ctx.violate(
                     "C12.same_history", f"{cfg['kind']} reference-stopped-on-max_iter restarted-run-extends-history",
-                    f"the uninterrupted run stopped on max_iter={cfg.get('max_iter')} with {len(ref['final'])} entries; restarted after crash path {crash_path} "
+                    f"the uninterrupted run stopped on max_iter={cfg.get('max_iter')} with {len(ref_final)} entries; restarted after crash path {crash_path} "
                     f"(loaded {len(loaded)} entries) the run got a fresh budget and recorded {len(final)} entries (the reference history is a strict prefix); cfg={cfg}",
                     fatal=False,
                 )
             else:
-                diff = next(((i, a, b) for i, (a, b) in enumerate(zip(final, ref["final"])) if a != b), (min(len(final), len(ref["final"])), len(final), len(ref["final"])))
+                diff = next(((i, a, b) for i, (a, b) in enumerate(zip(final, ref_final)) if a != b), (min(len(final), len(ref_final)), len(final), len(ref_final)))
                 ctx.violate("C12.same_history", sig, f"restarted run (crash path {crash_path}, loaded {len(loaded)}) ends with a different history than the uninterrupted run: first difference {diff}; cfg={cfg}")
         else:
             ctx.probe("restart_reproduced_reference_history")
